@@ -55,6 +55,9 @@ type Run struct {
 	Foreign []string `json:"foreign"`
 	// DefaultPolicy: the policy installed is NewDefaultSecurityPolicy() as it comes
 	DefaultPolicy bool `json:"defaultpolicy"`
+	// Rerender: after the render the SAME engine renders the entry template with this other context; the result must be
+	// what a fresh engine gives for that context (a cached template keeps nothing of the values it was rendered with)
+	Rerender json.RawMessage `json:"rerender"`
 	// Late: the engine reloads what has changed (auto-reload, a loader that reports time stamps); after the first render the
 	// loader starts failing for template Name (its Load and its time stamp query return the sentinel error) and the entry
 	// template is rendered again, with this expectation
@@ -139,11 +142,45 @@ type Cfg struct {
 	DenyFalse      bool            `json:"denyfalse"`      // policy maps carry explicit false entries for what is not allowed
 	SelfPanic      bool            `json:"selfpanic"`      // binding self-test: the harness panics where the engine would, and must report it
 	Globals        json.RawMessage `json:"globals"`        // name -> value, registered with Engine.AddGlobal (and not passed in the context)
+	// DenyList: the policy is not an allow-list but "everything except": what AllowF / AllowFn do NOT list among the
+	// names in Universe is forbidden, every other name (also names nobody registered) is allowed
+	DenyList bool     `json:"denylist"`
+	Universe []string `json:"universe"`
+	// ForeignTp: these templates are parsed by ANOTHER engine (same callbacks, no policy) and handed to the engine under
+	// test with RegisterTemplate (a shared layout)
+	ForeignTp []string `json:"foreigntp"`
+}
+
+// denyPolicy: a SecurityPolicy that forbids a fixed set of names and allows everything else
+type denyPolicy struct{ fn, f map[string]bool }
+
+func (p *denyPolicy) IsFunctionAllowed(name string) bool { return !p.fn[name] }
+func (p *denyPolicy) IsFilterAllowed(name string) bool   { return !p.f[name] }
+func (p *denyPolicy) IsTagAllowed(string) bool           { return true }
+
+func makeDenyPolicy(c Cfg) twig.SecurityPolicy {
+	p := &denyPolicy{fn: map[string]bool{}, f: map[string]bool{}}
+	allowed := map[string]bool{}
+	for _, n := range c.AllowF {
+		allowed["f:"+n] = true
+	}
+	for _, n := range c.AllowFn {
+		allowed["fn:"+n] = true
+	}
+	for _, n := range c.Universe {
+		if !allowed["f:"+n] {
+			p.f[n] = true
+		}
+		if !allowed["fn:"+n] {
+			p.fn[n] = true
+		}
+	}
+	return p
 }
 
 // path-like template names of the specification (TwigSem NT: pm |-> "p/m" ...): the key used in the
 // model's template table stands for the text the engine knows the template by
-var pathNames = map[string]string{"pm": "p/m", "pb": "p/b", "ph": "p/h", "sh": "s/h", "sb": "s/b", "sm": "s/m"}
+var pathNames = map[string]string{"pqx": "p/q/x", "pn1": "p/n1", "pm": "p/m", "pb": "p/b", "ph": "p/h", "sh": "s/h", "sb": "s/b", "sm": "s/m"}
 
 func engineName(key string) string {
 	if n, ok := pathNames[key]; ok {
@@ -455,6 +492,8 @@ func renderRun(c *Case, r *Run, ctx map[string]interface{}) (o obs) {
 	var installedPolicy *twig.DefaultSecurityPolicy
 	if r.DefaultPolicy {
 		e.EnableSandbox(twig.NewDefaultSecurityPolicy())
+	} else if c.Cfg.Sandbox && c.Cfg.DenyList {
+		e.EnableSandbox(makeDenyPolicy(c.Cfg))
 	} else if c.Cfg.Sandbox {
 		cfg1 := c.Cfg
 		cfg1.DenyFalse = cfg1.DenyFalse || r.DenyFalse
@@ -499,7 +538,26 @@ func renderRun(c *Case, r *Run, ctx map[string]interface{}) (o obs) {
 			e.RegisterLoader(twig.NewArrayLoader(map[string]string{}))
 		}
 	} else {
+		foreignTp := map[string]bool{}
+		for _, n := range c.Cfg.ForeignTp {
+			foreignTp[engineName(n)] = true
+		}
+		var other *twig.Engine
 		for name, src := range srcs {
+			if foreignTp[name] {
+				if other == nil {
+					other = twig.New()
+					registerSpies(other, st)
+				}
+				t, err := other.ParseTemplate(src)
+				if err != nil {
+					o.kind = "parse"
+					o.errMsg = name + ": " + err.Error()
+					return
+				}
+				e.RegisterTemplate(name, t)
+				continue
+			}
 			if err := e.RegisterString(name, src); err != nil {
 				o.kind = "parse"
 				o.errMsg = name + ": " + err.Error()
@@ -608,7 +666,7 @@ func renderRun(c *Case, r *Run, ctx map[string]interface{}) (o obs) {
 	for k, v := range st.counts {
 		firstCounts[k] = atomic.LoadInt64(v)
 	}
-	if len(r.Then) > 0 || r.Late != nil {
+	if len(r.Then) > 0 || r.Late != nil || len(r.Rerender) > 0 {
 		defer func() { // the case's own expectation is about the first render
 			for _, v := range st.counts {
 				atomic.StoreInt64(v, 0)
@@ -664,6 +722,23 @@ func renderRun(c *Case, r *Run, ctx map[string]interface{}) (o obs) {
 		if diff != "" {
 			o.ok, o.kind, o.errMsg = false, "phase-differs", fmt.Sprintf("phase %d after a policy change: %s", pi+1, diff)
 			break
+		}
+	}
+	if len(r.Rerender) > 0 && o.kind != "hang" && o.kind != "panic" {
+		if ctx2, err := scopeOf(r.Rerender); err == nil {
+			out2, err2 := renderOnce() // once more with the first context
+			entrySave, ctxSave := entry, ctx
+			ctx = ctx2
+			out3, err3 := renderOnce() // ... then with the other one
+			ctx = ctxSave
+			_ = entrySave
+			r2 := *r
+			r2.Rerender, r2.Again, r2.Then, r2.Late, r2.Probe = nil, 0, nil, nil, false
+			fresh := renderRun(c, &r2, ctx2)
+			if (err3 == nil) != fresh.ok || (err3 == nil && out3 != fresh.out) {
+				o.ok, o.kind, o.errMsg = false, "rerender-differs", fmt.Sprintf("the same engine with another context gave ok=%v %q, a fresh engine ok=%v %q", err3 == nil, out3, fresh.ok, fresh.out)
+			}
+			_, _ = out2, err2
 		}
 	}
 	if late != nil && o.ok {
